@@ -17,8 +17,9 @@ from typing import TYPE_CHECKING, Any
 # asimap imports
 #
 from .constants import flag_to_seq
+from .exceptions import Bad
 from .generator import get_msg_size, msg_as_string
-from .utils import parsedate
+from .utils import parsedate, sequence_set_to_list
 
 if TYPE_CHECKING:
     from .mbox import Mailbox
@@ -229,6 +230,11 @@ class IMAPSearch:
         self.args = kwargs
         self.ctx: SearchContext
 
+        # For the `message_set` and `uid` ops: the numbers the set denotes,
+        # expanded once per (set, max) by `_msg_set_numbers()`.
+        #
+        self._msg_set_cache: tuple[int, frozenset[int]] | None = None
+
     #########################################################################
     #
     def __repr__(self) -> str:
@@ -428,20 +434,30 @@ class IMAPSearch:
         One trick, an integer may be '*' which means the last message
         sequence number in our mailbox.
         """
-        msg_number = self.ctx.msg_number
-        for elt in self.args["msg_set"]:
-            if isinstance(elt, str) and elt == "*":
-                if msg_number == self.ctx.seq_max:
-                    return True
-            elif isinstance(elt, int):
-                if elt == msg_number:
-                    return True
-            elif isinstance(elt, tuple):
-                if isinstance(elt[1], str) and elt[1] == "*":
-                    elt = (elt[0], self.ctx.seq_max)
-                if msg_number >= elt[0] and msg_number <= elt[1]:
-                    return True
-        return False
+        return self.ctx.msg_number in self._msg_set_numbers(self.ctx.seq_max)
+
+    #########################################################################
+    #
+    def _msg_set_numbers(self, set_max: int) -> frozenset[int]:
+        """
+        The numbers our `msg_set` argument denotes when `*` is `set_max`.
+
+        There is one interpretation of a message set in the server,
+        `sequence_set_to_list()`: `*`, ranges written in either order, etc.
+        mean the same here as in FETCH, STORE or COPY. Numbers that name no
+        message simply match nothing, as with UID sets.
+        """
+        if self._msg_set_cache is None or self._msg_set_cache[0] != set_max:
+            try:
+                numbers = sequence_set_to_list(
+                    self.args["msg_set"], set_max, uid_cmd=True
+                )
+            except Bad:
+                # A set that can not denote any message (`0`) matches nothing
+                #
+                numbers = []
+            self._msg_set_cache = (set_max, frozenset(numbers))
+        return self._msg_set_cache[1]
 
     #########################################################################
     #
@@ -554,17 +570,4 @@ class IMAPSearch:
         Messages with unique identifiers corresponding to the
         specified unique identifier set.
         """
-        uid = self.ctx.uid()
-        for elt in self.args["msg_set"]:
-            if isinstance(elt, str) and elt == "*":
-                if uid == self.ctx.uid_max:
-                    return True
-            elif isinstance(elt, int):
-                if elt == uid:
-                    return True
-            elif isinstance(elt, tuple):
-                if isinstance(elt[1], str) and elt[1] == "*":
-                    elt = (elt[0], self.ctx.uid_max)
-                if uid >= elt[0] and uid <= elt[1]:
-                    return True
-        return False
+        return self.ctx.uid() in self._msg_set_numbers(self.ctx.uid_max)
